@@ -44,19 +44,19 @@ def register(w):
         c.no_runtime = True
         c.mod(*STATE, Q, ACC)
         c.req(f"legal({A})", "self._is_processing")
-        c.ens(f"legal({A})", f"appended_only(old({Q}), old({ACC}), {Q}, {ACC})")
-        c.may_raise("Exception", ensures=[f"legal({A})", f"appended_only(old({Q}), old({ACC}), {Q}, {ACC})"])
+        c.ens(f"legal({A})", f"appended_only(old({Q}), old({ACC}), {Q}, {ACC})", "status_reach(old(self.status), self.status)")
+        c.may_raise("Exception", ensures=[f"legal({A})", f"appended_only(old({Q}), old({ACC}), {Q}, {ACC})", "status_reach(old(self.status), self.status)"])
 
     @w.contract(SI + "_process_event_queue", props=["C04", "C13", "C14", "C01"])
     def _(c):
         c.no_runtime = True
         c.mod(*STATE, Q, ACC, REM, "self.g_ndiscarded", "self._is_processing")
         c.req(f"queue_inv({Q}, {ACC}, {REM})", f"implies(not self._is_processing, legal({A}))", "root.max_iterations >= 0")
-        c.ghost_after_ = None
         # re-entrant call (an action sent an event while another is in flight): nothing happens now
         c.ens(f"implies(old(self._is_processing), seq_eq({Q}, old({Q})) and seq_eq({REM}, old({REM})) and set_eq({A}, old({A})) and self.status == old(self.status) and self._is_processing)",
               label="re-entrant-call-is-deferred")
         c.ens(f"queue_inv({Q}, {ACC}, {REM})", label="fifo-nothing-lost-or-duplicated-in-the-queue")
+        c.ens("status_reach(old(self.status), self.status)", label="status-moves-along-allowed-edges")
         c.ens(f"implies(not old(self._is_processing), not self._is_processing and legal({A}))", label="flag-released-and-configuration-legal")
         c.ens(f"implies(not old(self._is_processing), len({Q}) == 0)", label="queue-drained-on-return")
         c.ens(f"len({ACC}) >= len(old({ACC})) and forall[int](lambda i: implies(0 <= i and i < len(old({ACC})), {ACC}[i] == old({ACC})[i]), lambda i: {ACC}[i])", label="accepted-history-is-append-only")
@@ -65,7 +65,7 @@ def register(w):
         c.label_props = {"discard-only-after-termination": ["C04", "C13"], "no-accepted-event-is-discarded": ["C04", "C13"]}
         c.ghost("limit_hit", BOOL, init="False")
         c.ens("implies(not final_limit_hit, self.g_ndiscarded == old(self.g_ndiscarded))", label="no-accepted-event-is-discarded")
-        c.may_raise("Exception", ensures=[f"queue_inv({Q}, {ACC}, {REM})", "not self._is_processing", f"legal({A})",
+        c.may_raise("Exception", ensures=["status_reach(old(self.status), self.status)", f"queue_inv({Q}, {ACC}, {REM})", "not self._is_processing", f"legal({A})",
                                           "implies(not final_limit_hit, self.g_ndiscarded == old(self.g_ndiscarded))", f"len({ACC}) >= len(old({ACC})) and forall[int](lambda i: implies(0 <= i and i < len(old({ACC})), {ACC}[i] == old({ACC})[i]), lambda i: {ACC}[i])"])
         c.after("current_event = self._event_queue.popleft()", f"{REM} = append({REM}, current_event)",
                 f"assert queue_inv({Q}, {ACC}, {REM})")
@@ -81,10 +81,10 @@ def register(w):
         c.before = {}
         c.loop(0, inv=[
             f"queue_inv({Q}, {ACC}, {REM})", f"legal({A})", "self._is_processing", "processed >= 0",
-            "limit == root.max_iterations", "not limit_hit", "self.g_ndiscarded == old(self.g_ndiscarded)",
+            "limit == root.max_iterations", "not limit_hit", "status_reach(old(self.status), self.status)", "self.g_ndiscarded == old(self.g_ndiscarded)",
             f"len({ACC}) >= len(old({ACC})) and forall[int](lambda i: implies(0 <= i and i < len(old({ACC})), {ACC}[i] == old({ACC})[i]), lambda i: {ACC}[i])",
         ], decreases="ite(limit - processed + 1 > 0, limit - processed + 1, 0) + len(self._event_queue) * 0")
-        c.loop(1, inv=[f"queue_inv({Q}, {ACC}, {REM})", f"legal({A})", "self._is_processing", "not limit_hit",
+        c.loop(1, inv=["status_reach(old(self.status), self.status)", f"queue_inv({Q}, {ACC}, {REM})", f"legal({A})", "self._is_processing", "not limit_hit",
                        "self.g_ndiscarded == old(self.g_ndiscarded)", f"len({ACC}) >= len(old({ACC})) and forall[int](lambda i: implies(0 <= i and i < len(old({ACC})), {ACC}[i] == old({ACC})[i]), lambda i: {ACC}[i])"])
 
     @w.contract(SI + "send", props=["C04", "C14", "C01"])
@@ -105,3 +105,37 @@ def register(w):
         c.after("self._event_queue.append(event_obj)", f"{ACC} = append({ACC}, event_obj)",
                 f"assert queue_inv({Q}, {ACC}, {REM})",
                 f"assert forall[int](lambda i: implies(0 <= i and i < len(old({ACC})), {ACC}[i] == old({ACC})[i]))")
+
+
+    @w.contract(SI + "_enter_states", also=[BI + "_enter_states"], props=["C01", "C03"])
+    def _(c):
+        c.trusted = ("contract E (entry of a forest-closed list, default descent) is NOT proved: assumed here in the one shape start() uses "
+                     "(entering [root] into an empty configuration yields a legal configuration) and checked at run time by bounded.c01/c03; "
+                     "like every action-running routine it reaches the queue only through send()")
+        c.no_runtime = True
+        c.param("states_to_enter", ListSort(Node)).param("event", Ev)
+        c.defaults = {"event": "None"}
+        c.mod(*STATE, Q, ACC)
+        c.ens(f"implies(len(states_to_enter) == 1 and states_to_enter[0] == root and forall[Node](lambda n: not (n in old({A}))), legal({A}))")
+        c.ens(f"appended_only(old({Q}), old({ACC}), {Q}, {ACC})", label="ghost:queue-append-only")
+        c.ens("status_reach(old(self.status), self.status)")
+        c.may_raise("Exception", ensures=[f"ghost:appended_only(old({Q}), old({ACC}), {Q}, {ACC})", "status_reach(old(self.status), self.status)"])
+
+    @w.contract(SI + "start", props=["C14", "C04", "C01"])
+    def _(c):
+        c.no_runtime = True
+        c.returns(w.self_sort)
+        c.mod(*STATE, Q, ACC, REM, "self.g_ndiscarded", "self._is_processing")
+        c.req("valid_status(self.status)", f"queue_inv({Q}, {ACC}, {REM})", "root.max_iterations >= 0", "not self._is_processing",
+              f"implies(self.status == 'uninitialized', forall[Node](lambda n: not (n in {A})))",
+              f"implies(self.status == 'running', legal({A}))")
+        c.label_props = {"_process_transient_transitions#1": ["C04"]}
+        c.ens("status_reach(old(self.status), self.status) and valid_status(self.status) and implies(old(self.status) == 'uninitialized', self.status != 'uninitialized')",
+              label="status-edge-allowed")
+        c.ens(f"implies(old(self.status) != 'uninitialized', self.status == old(self.status) and set_eq({A}, old({A})) and seq_eq({Q}, old({Q})))", label="start-is-idempotent-once-started")
+        c.ens(f"implies(old(self.status) == 'uninitialized', legal({A}) and not self._is_processing)", label="legal-configuration-when-start-returns")
+        c.ens(f"queue_inv({Q}, {ACC}, {REM})", label="fifo-nothing-lost-or-duplicated-in-the-queue")
+        c.ens("result == self", label="returns-self")
+        c.may_raise("InvalidConfigError")            # a stopped interpreter is refused; so is a machine whose entry fails
+        c.may_raise("Exception")
+        c.after("self.status = 'running'", "assert True")
